@@ -53,10 +53,14 @@ def order : Nat → List String → (String → List String) → Except Err (Lis
       | .ok l => .ok (p :: l)
       | .error e => .error e
 
+/-- the packages `loadImports` discovers from `top` (the fuel is more than the worklist can use:
+    `discover_spec`) -/
+def discovered (g : Imports) (top : String) : List String :=
+  discover g (g.length * (g.foldl (fun n p => n + p.2.length) 0 + 1) + 2) [top] []
+
 /-- the whole of `loadImports`' ordering for a top package -/
 def loadOrder (g : Imports) (top : String) : Except Err (List String) :=
-  let pkgs := discover g (g.length * (g.foldl (fun n p => n + p.2.length) 0 + 1) + 2) [top] []
-  let keys := sortStrings pkgs
+  let keys := sortStrings (discovered g top)
   order keys.length keys (importsOf g)
 
 end Goat.Load
